@@ -1,6 +1,234 @@
-(** Entry points for C18 (stub: replaced by the property's own entry file). *)
-From Coq Require Import ZArith List.
-From GV Require Import Base.Val.
+(** Entry points for C18 (using a reference database never modifies it).
+
+    wire formats
+      table    : ((k v) ...)
+      change   : (0 k v) Ins | (1 k v) Upd | (2 k) Del
+      op       : (0 k v) Add | (1 k v) Modify | (2 k) Delete | (3) Query | (4) Flush | (5) Commit |
+                 (6) Rollback | (7) Close | (8) TxCommit | (9 change) Exec
+      resp     : (0) ok | (1 table) rows seen | (2) TypeError | (3) FlushError | (4) no such row
+      mode     : -1 library default | 0 r | 1 r+ | 2 w | 3 a | 4 w-
+      sop      : (0 mode) open | (1 k) read | (2 k v) write | (3 k) delete | (4) flush | (5) close
+      sresp    : (0) ok | (1 (v)?) value | (2) rejected | (3) not open | (4) busy | (5) exists
+      cmd      : (0 nq) query | (1 nq) dist --use-db | (2) signatures info -d | (3) signatures info FILE |
+                 (4) tree -s | (5 n) load_from_dir | (6 af (op ...)) session edits | (7 (sop ...)) handle ops
+      invocation : (cmd failpoint)
+
+    1  session run  (flush_noop commit_raises autoflush table (op ...))
+         -> ((resp n_new n_dirty n_deleted n_statements file_changed journal) ... ) per operation
+    2  store run    (status table handle_mode_or_-1 (sop ...))
+         -> ((sresp file_changed handle_mode_or_-1) ...)
+    3  history run  (table status cells names (invocation ...))
+         -> ((history_ok) (per invocation: (n_ops gdb_changed gs_changed names_changed journal n_new_statements
+             ((flush_noop commit_raises) ...) (mode ...) n_outputs ever_changed)) ...)
+    4  defaults     (readonly) -> ((flush_noop commit_raises) of file_sessionmaker(readonly, None),
+                                   (..) of the CLI class, default mode) *)
+From Coq Require Import ZArith List Bool.
+From GV Require Import Base.Val Model.C18.
+Import ListNotations.
 Open Scope Z_scope.
 
-Definition dispatch (op : Z) (a : val) : val := vbad.
+Definition to_row (v : val) : row := match v with VL [VI k; VI x] => (k, x) | _ => (0, 0) end.
+Definition to_table (v : val) : table := map to_row (to_list v).
+Definition vrow (r : row) : val := VL [VI (fst r); VI (snd r)].
+Definition vtable (t : table) : val := VL (map vrow t).
+
+Definition to_change (v : val) : option change :=
+  match v with
+  | VL [VI 0; VI k; VI x] => Some (Ins k x)
+  | VL [VI 1; VI k; VI x] => Some (Upd k x)
+  | VL [VI 2; VI k] => Some (Del k)
+  | _ => None
+  end.
+
+Definition to_op (v : val) : option op :=
+  match v with
+  | VL [VI 0; VI k; VI x] => Some (Add k x)
+  | VL [VI 1; VI k; VI x] => Some (Modify k x)
+  | VL [VI 2; VI k] => Some (Delete k)
+  | VL [VI 3] => Some Query
+  | VL [VI 4] => Some Flush
+  | VL [VI 5] => Some Commit
+  | VL [VI 6] => Some Rollback
+  | VL [VI 7] => Some Close
+  | VL [VI 8] => Some TxCommit
+  | VL [VI 9; c] => match to_change c with Some c' => Some (Exec c') | None => None end
+  | _ => None
+  end.
+
+Fixpoint all_some {X} (l : list (option X)) : option (list X) :=
+  match l with
+  | [] => Some []
+  | None :: _ => None
+  | Some x :: r => match all_some r with Some r' => Some (x :: r') | None => None end
+  end.
+
+Definition to_ops (v : val) : option (list op) := all_some (map to_op (to_list v)).
+
+Definition vresp (r : resp) : val :=
+  match r with
+  | ROk => VL [VI 0]
+  | RView t => VL [VI 1; vtable t]
+  | RTypeError => VL [VI 2]
+  | RFlushError => VL [VI 3]
+  | RNoRow => VL [VI 4]
+  end.
+
+Fixpoint row_eqb (a b : table) : bool :=
+  match a, b with
+  | [], [] => true
+  | (k, v) :: r, (k', v') :: r' => (k =? k') && (v =? v') && row_eqb r r'
+  | _, _ => false
+  end.
+
+Definition vlen {X} (l : list X) : val := VI (Z.of_nat (length l)).
+
+Fixpoint session_trace (cls : sclass) (af : bool) (f0 : table) (s : sess) (ops : list op) : list val :=
+  match ops with
+  | [] => []
+  | o :: r =>
+      let '(s1, a) := step cls af s o in
+      VL [vresp a; vlen (s_new s1); vlen (live_dirty s1); vlen (s_del s1); vlen (s_log s1);
+          vbool (negb (row_eqb (s_file s1) f0)); vbool (journal_present s1)]
+      :: session_trace cls af f0 s1 r
+  end.
+
+Definition to_mode (z : Z) : option (option mode) :=
+  match z with
+  | -1 => Some None | 0 => Some (Some MR) | 1 => Some (Some MRplus) | 2 => Some (Some MW)
+  | 3 => Some (Some MA) | 4 => Some (Some MX) | _ => None
+  end.
+Definition mode_code (m : mode) : Z := match m with MR => 0 | MRplus => 1 | MW => 2 | MA => 3 | MX => 4 end.
+Definition vhandle (h : option mode) : val := match h with None => VI (-1) | Some m => VI (mode_code m) end.
+
+Definition to_sop (v : val) : option sop :=
+  match v with
+  | VL [VI 0; VI m] => match to_mode m with Some kw => Some (SOpen kw) | None => None end
+  | VL [VI 1; VI k] => Some (SRead k)
+  | VL [VI 2; VI k; VI x] => Some (SWrite k x)
+  | VL [VI 3; VI k] => Some (SDelete k)
+  | VL [VI 4] => Some SFlush
+  | VL [VI 5] => Some SClose
+  | _ => None
+  end.
+Definition to_sops (v : val) : option (list sop) := all_some (map to_sop (to_list v)).
+
+Definition vsresp (r : sresp) : val :=
+  match r with
+  | SOk => VL [VI 0]
+  | SVal v => VL [VI 1; vopt VI v]
+  | SRejected => VL [VI 2]
+  | SNotOpen => VL [VI 3]
+  | SBusy => VL [VI 4]
+  | SExists => VL [VI 5]
+  end.
+
+Definition sfile_eqb (a b : sfile) : bool := (f_status a =? f_status b) && row_eqb (f_cells a) (f_cells b).
+
+Fixpoint store_trace (f0 : sfile) (st : store) (ops : list sop) : list val :=
+  match ops with
+  | [] => []
+  | o :: r =>
+      let '(st1, a) := sstep st o in
+      VL [vsresp a; vbool (negb (sfile_eqb (st_file st1) f0)); vhandle (st_handle st1)]
+      :: store_trace f0 st1 r
+  end.
+
+Definition to_cmd (v : val) : option cmd :=
+  match v with
+  | VL [VI 0; VI n] => Some (CQuery (Z.to_nat n))
+  | VL [VI 1; VI n] => Some (CDistDb (Z.to_nat n))
+  | VL [VI 2] => Some CSigInfoDb
+  | VL [VI 3] => Some CSigInfoFile
+  | VL [VI 4] => Some CTreeSig
+  | VL [VI 5; VI n] => Some (CLoadFromDir (Z.to_nat n))
+  | VL [VI 6; VI af; ops] => match to_ops ops with Some o => Some (CLibSession (negb (af =? 0)) o) | None => None end
+  | VL [VI 7; ops] => match to_sops ops with Some o => Some (CLibStore o) | None => None end
+  | _ => None
+  end.
+Definition to_inv (v : val) : option invocation :=
+  match v with
+  | VL [c; VI fp] => match to_cmd c with Some c' => Some (c', Z.to_nat fp) | None => None end
+  | _ => None
+  end.
+
+Fixpoint zs_eqb (a b : list Z) : bool :=
+  match a, b with
+  | [], [] => true
+  | x :: r, y :: r' => (x =? y) && zs_eqb r r'
+  | _, _ => false
+  end.
+
+Definition vclass (c : sclass) : val := VL [vbool (flush_noop c); vbool (commit_raises c)].
+
+(** did the directory differ from (f0, g0, n0, no journal) after some micro operation? *)
+Fixpoint ever_changed (f0 : table) (g0 : sfile) (n0 : list Z) (w : world) (ops : list wop) : bool :=
+  match ops with
+  | [] => false
+  | o :: r =>
+      let w1 := fst (wstep w o) in
+      negb (row_eqb (s_file (w_db w1)) f0) || negb (sfile_eqb (st_file (w_store w1)) g0)
+      || negb (zs_eqb (w_names w1) n0) || journal_present (w_db w1)
+      || ever_changed f0 g0 n0 w1 r
+  end.
+
+Fixpoint history_trace (w : world) (h : list invocation) : list val :=
+  match h with
+  | [] => []
+  | i :: r =>
+      let ops := invocation_ops i in
+      let w1 := fst (run_world w ops) in
+      VL [VI (Z.of_nat (length (compile (fst i))));
+          vbool (negb (row_eqb (s_file (w_db w1)) (s_file (w_db w))));
+          vbool (negb (sfile_eqb (st_file (w_store w1)) (st_file (w_store w))));
+          vbool (negb (zs_eqb (w_names w1) (w_names w)));
+          vbool (journal_present (w_db w1));
+          VI (Z.of_nat (length (s_log (w_db w1))) - Z.of_nat (length (s_log (w_db w))));
+          VL (map vclass (skipn (length (w_classes w)) (w_classes w1)));
+          VL (map (fun m => VI (mode_code m)) (skipn (length (w_modes w)) (w_modes w1)));
+          VI (Z.of_nat (length (w_out w1)));
+          vbool (ever_changed (s_file (w_db w)) (st_file (w_store w)) (w_names w) w ops)]
+      :: history_trace w1 r
+  end.
+
+Definition dispatch (op : Z) (a : val) : val :=
+  match op with
+  | 1 => match a with
+         | VL [VI fn; VI cr; VI af; t; ops] =>
+             match to_ops ops with
+             | Some o =>
+                 let cls := {| flush_noop := negb (fn =? 0); commit_raises := negb (cr =? 0) |} in
+                 let f0 := to_table t in
+                 VL (session_trace cls (negb (af =? 0)) f0 (fresh_session f0) o)
+             | None => vbad
+             end
+         | _ => vbad
+         end
+  | 2 => match a with
+         | VL [VI status; cells; VI h; ops] =>
+             match to_sops ops, to_mode h with
+             | Some o, Some hm =>
+                 let f0 := {| f_status := status; f_cells := to_table cells |} in
+                 VL (store_trace f0 {| st_file := f0; st_handle := hm |} o)
+             | _, _ => vbad
+             end
+         | _ => vbad
+         end
+  | 3 => match a with
+         | VL [t; VI status; cells; names; h] =>
+             match all_some (map to_inv (to_list h)) with
+             | Some hist =>
+                 let w := {| w_db := fresh_session (to_table t); w_cur := None;
+                             w_store := {| st_file := {| f_status := status; f_cells := to_table cells |}; st_handle := None |};
+                             w_names := to_Zs names; w_out := []; w_classes := []; w_modes := [] |} in
+                 VL [vbool (history_ok hist); VL (history_trace w hist)]
+             | None => vbad
+             end
+         | _ => vbad
+         end
+  | 4 => match a with
+         | VL [VI ro] =>
+             VL [vclass (file_sessionmaker (negb (ro =? 0)) None); vclass cli_class; VI (mode_code h5py_default_mode)]
+         | _ => vbad
+         end
+  | _ => vbad
+  end.
